@@ -3,9 +3,9 @@ import SkimModel.Model.SessionFG
 /-!
 # The conditions of the heart-beat handler, as written in src/model.rs, are the conditions of the Session model
 
-`Generated/HeartBeat.lean` is re-translated from `act_heart_beat` and `handle_select1_or_exit0` on every run
-(tools/extractors/heartbeat.py: the nine boolean conditions as expression trees; it also checks the order of the reads and of
-harvest / restart / arm, and fails closed).  Each theorem below evaluates one of those trees under an assignment of the atoms
+`Generated/HeartBeat.lean` is re-translated from `act_heart_beat` on every run (tools/extractors/heartbeat.py: its four boolean
+conditions as expression trees; it also checks the order of the reads and of harvest / restart / arm, and fails closed).  The
+conditions of `handle_select1_or_exit0` are in `Generated/Select1.lean` / `Props/Select1Tables.lean`.  Each theorem below evaluates one of those trees under an assignment of the atoms
 taken from a model state and proves it equal to the condition `Model/Session.lean` / `Model/SessionFG.lean` use at that place.
 A change of a condition in the source changes the generated tree, and the corresponding theorem stops checking.
 (`--sync` is outside the model: it is evaluated as off.)
@@ -54,34 +54,6 @@ theorem harvest_clear_condition (s : St α κ) (r : MRun α κ) (rs : Bool) (h :
        then [] else s.list) ++ r.result := by
   rw [hb_clear_is_model]
   simp [harvest, h]
-
-/-- handle_select1_or_exit0: skipped iff neither option is set (`--sync` off) -/
-theorem s1_skip_is_model (select1 exit0 : Bool) :
-    s1Skip.eval (fun a => match a with | .select1 => select1 | .exit0 => exit0 | _ => false) = (!select1 && !exit0) := by
-  cases select1 <;> cases exit0 <;> rfl
-
-/-- "matcher finished" there means: the control has been harvested -/
-theorem s1_matcher_stopped_is_model (mcNone : Bool) :
-    s1MatcherStopped.eval (fun a => match a with | .mcNone => mcNone | _ => false) = mcNone := rfl
-
-/-- `processed` of handle_select1_or_exit0 = the model's `rs' && ic' && mc.isNone` -/
-theorem s1_processed_is_model (rs ic mcNone : Bool) :
-    s1Processed.eval (fun a => match a with
-      | .rs => rs | .ic => ic
-      | .ms => s1MatcherStopped.eval (fun b => match b with | .mcNone => mcNone | _ => false)
-      | _ => false) = (rs && ic && mcNone) := by
-  cases rs <;> cases ic <;> cases mcNone <;> rfl
-
-/-- accept iff exactly one match and select-1, abort iff none and exit-0: the two tests of `decide1`, in that order -/
-theorem s1_decisions_are_model (s : St α κ) :
-    decide1 s =
-      (let v : Atom → Bool := fun a => match a with
-          | .one => s.list.length == 1 | .zero => s.list.length == 0 | .select1 => s.select1 | .exit0 => s.exit0 | _ => false
-       if s1Accept.eval v then { s with decision := some .accept, queue := s.queue ++ [.user .accept] }
-       else if s1Abort.eval v then { s with decision := some .abort, queue := s.queue ++ [.user .abort] }
-       else { s with decision := some .interactive, select1 := false, exit0 := false }) := by
-  unfold decide1
-  simp only [s1Accept, s1Abort, BExp.eval]
 
 /-! ### The handlers that restart the matching: the model's handler is the source's step sequence, interpreted -/
 
